@@ -4,7 +4,7 @@
     Mailbox.close on the channel database, [close_deletes] says when the
     mailbox goes. *)
 From MW Require Import Base Store Monad Usage Server Websocket Service Findings Inv ProtoFacts Obs
-     MbFactsA MbFactsB MbStable KeeperCrash.
+     MbFactsA MbFactsB MbStable KeeperCrash RefuseFacts.
 Local Open Scope list_scope.
 
 (** close on the connection that holds the mailbox: never fails, always
@@ -154,3 +154,60 @@ Example C08_nonvacuous :
   close_deletes d1 "a" "mb" "s2" (Some "happy") = true /\
   close_db d1 "a" "mb" "s2" (Some "happy") = mkChan [] [] [] [] [] 1.
 Proof. vm_compute. repeat split; reflexivity. Qed.
+
+(** * everything deleted together; re-sent close (quoted by type from RefuseFacts.v).  [purge_db d m]: d without mailbox m, its side rows, its messages, the nameplates pointing at it and their side rows *)
+
+(** the close of the last open side is exactly the purge *)
+Theorem C08_close_db_last : ltac:(let t := type of close_db_last in exact t).
+Proof. exact close_db_last. Qed.
+Check C08_close_db_last.
+Print Assumptions C08_close_db_last.
+
+(** every table: a row survives iff it does not belong to the mailbox *)
+Theorem C08_purge_db_rows : ltac:(let t := type of purge_db_rows in exact t).
+Proof. exact purge_db_rows. Qed.
+Check C08_purge_db_rows.
+Print Assumptions C08_purge_db_rows.
+
+(** every other mailbox and nameplate is untouched *)
+Theorem C08_purge_db_others : ltac:(let t := type of purge_db_others in exact t).
+Proof. exact purge_db_others. Qed.
+Check C08_purge_db_others.
+Print Assumptions C08_purge_db_others.
+
+(** [ack; closed], the purged database committed, the mailbox's subscriptions gone *)
+Theorem C08_last_close_removes_exact : ltac:(let t := type of last_close_removes_exact in exact t).
+Proof. exact last_close_removes_exact. Qed.
+Check C08_last_close_removes_exact.
+Print Assumptions C08_last_close_removes_exact.
+
+(** from any reachable state, without the row hypothesis; side records, messages, nameplates and their side rows gone, everything else as it was *)
+Theorem C08_last_close_removes_reachable : ltac:(let t := type of last_close_removes_reachable in exact t).
+Proof. exact last_close_removes_reachable. Qed.
+Check C08_last_close_removes_reachable.
+Print Assumptions C08_last_close_removes_reachable.
+
+(** re-sent close, mailbox already gone: [ack; closed], nothing stored changes, nobody's hold changes *)
+Theorem C08_reclose_gone_step : ltac:(let t := type of reclose_gone_step in exact t).
+Proof. exact reclose_gone_step. Qed.
+Check C08_reclose_gone_step.
+Print Assumptions C08_reclose_gone_step.
+
+(** (from any reachable state) *)
+Theorem C08_reclose_gone_reachable : ltac:(let t := type of reclose_gone_reachable in exact t).
+Proof. exact reclose_gone_reachable. Qed.
+Check C08_reclose_gone_reachable.
+Print Assumptions C08_reclose_gone_reachable.
+
+(** what happens on the way: a transient mailbox is created and retired (one `lonely` usage record when usage is on) *)
+Theorem C08_reclose_gone_commits : ltac:(let t := type of reclose_gone_commits in exact t).
+Proof. exact reclose_gone_commits. Qed.
+Check C08_reclose_gone_commits.
+Print Assumptions C08_reclose_gone_commits.
+
+(** non-vacuity *)
+Theorem C08_last_close_removes_nonvacuous : ltac:(let t := type of RefuseExamples.last_close_removes_nonvacuous in exact t).
+Proof. exact RefuseExamples.last_close_removes_nonvacuous. Qed.
+Check C08_last_close_removes_nonvacuous.
+Print Assumptions C08_last_close_removes_nonvacuous.
+
